@@ -61,10 +61,10 @@ def _tol(kappa, power=1):
 
 # --------------------------------------------------------------------------- strategies
 @st.composite
-def s_tmats(draw, hyp, n, shape, complex_=False, plain=False):
+def s_tmats(draw, hyp, n, shape, complex_=False, plain=False, pcomp=3):
     """dict(cols=[column matrices], comp=bool, col=bool): a unit transformation or a
     composite one of the given shape"""
-    comp = bool(shape) and draw(st.integers(0, 3)) == 0
+    comp = bool(shape) and draw(st.integers(0, pcomp)) == 0
     cnt = gen.prod(shape) if comp else 1
     mats = []
     # special matrices: an isometry typed in to 4 decimals (only approximately in O(n,1):
@@ -280,7 +280,7 @@ def absolute_case(draw):
     cx = (not hyp) and draw(st.integers(0, 2)) == 0
     cxm = (not hyp) and (cx or draw(st.integers(0, 3)) == 0)
     return dict(obj=draw(objs.s_object(kind, n, shape, cx)),
-                T=draw(s_tmats(hyp, n, shape, cxm)), raw=draw(st.booleans()))
+                T=draw(s_tmats(hyp, n, shape, cxm, pcomp=1)), raw=draw(st.booleans()))
 
 
 def body_absolute(case, ctx):
